@@ -446,7 +446,36 @@ CHECKS[20] = c20
 
 def c18_extra(R, tier, seed):
     # the containers under the sanitizers, every capacity boundary: only memory-safety reports count here
-    return run_containers(R, "C18", ["bitarray", "static", "dynamic", "tasklist", "stream"], tier, seed, 100000 if tier == "quick" else 1500000, only_memory=True)
+    rc = run_containers(R, "C18", ["bitarray", "static", "dynamic", "tasklist", "stream"], tier, seed, 100000 if tier == "quick" else 1500000, only_memory=True)
+    if rc == 2:
+        return 2
+    # smallest / largest / byte-boundary machine sizes under the sanitizers (serial buffer as a heap object of its own)
+    ns = [1, 2, 63, 64, 127, 128, 129] + ([254, 255] if tier == "thorough" else [])
+    plan = [(n, n % 2, "shipped" if i % 2 == 0 else "dev") for i, n in enumerate(ns)]
+    ok, bins, log, out = sizes_binaries(plan, san=True)
+    if not ok:
+        print("INCONCLUSIVE: sanitized sizes harness does not build:", log)
+        return 2
+    od = vc.out_dir("C18")
+    env = {"ASAN_OPTIONS": "detect_leaks=0", "UBSAN_OPTIONS": "print_stacktrace=1:halt_on_error=1"}
+    cmds, metas = [], []
+    for p in plan:
+        wp = os.path.join(od, "walk-%d-%d-%s.txt" % p)
+        gen_walk(p[0], seed, wp)
+        cmds.append([bins[p], "walk", wp]); metas.append((p, "walk", wp))
+        cmds.append([bins[p], "pairs"]); metas.append((p, "pairs", ""))
+    outs = vc.parallel(cmds, env=env)
+    n_ok = 0
+    for (p, what, wp), (rc2, o2) in zip(metas, outs):
+        if "runtime error:" in o2 or "AddressSanitizer" in o2:
+            lp = os.path.join(od, "sizes-san-%d-%d-%s-%s.log" % (p[0], p[1], p[2], what))
+            open(lp, "w").write(o2[-6000:])
+            R.violation(lp, "sanitizer report in the sizes harness (N=%d head=%d, %s header, %s): %s" % (p[0], p[1], p[2], what, vp.first_report_line(o2)))
+        elif rc2 == 0:
+            n_ok += 1
+    R.coverage["engines"]["sizes_under_sanitizers"] = {"state_counts": ns, "runs_clean": n_ok}
+    R.coverage["evaluations"] += n_ok
+    return 0
 
 
 def c14_zoo(R, tier, seed):
@@ -496,9 +525,9 @@ def sizes_plan(tier, seed):
     return plan
 
 
-def sizes_binaries(plan):
-    key = vc.sha(vc.repo_hash(), vc.hash_files([SIZES_SRC]))
-    d = os.path.join(vc.build_root(), "sizes-" + key[:10])
+def sizes_binaries(plan, san=False):
+    key = vc.sha(vc.repo_hash(), vc.hash_files([SIZES_SRC]), "san" if san else "plain")
+    d = os.path.join(vc.build_root(), ("sizes-san-" if san else "sizes-") + key[:10])
     res, cmds, todo = {}, [], []
     with vc.Lock(d + ".lock"):
         os.makedirs(d, exist_ok=True)
@@ -508,6 +537,8 @@ def sizes_binaries(plan):
             if not os.path.exists(exe) and exe not in todo:
                 todo.append(exe)
                 cxx = ["clang++", "-std=gnu++17", "-O0", "-w"] if n > 64 else ["g++", "-std=gnu++17", "-O0", "-w"]
+                if san:
+                    cxx = ["clang++", "-std=gnu++17", "-O0", "-g", "-w", "-fsanitize=address,undefined", "-fno-sanitize-recover=undefined"]
                 cmds.append(cxx + vc.variant_flags(variant) + ["-DVF_N=%d" % n, "-DVF_HEAD=%d" % head, SIZES_SRC, "-o", exe + ".tmp"])
         # big machines need ~1.5 GB each while compiling: limit the parallelism for them
         outs = vc.parallel(cmds, jobs=min(vc.NCPU, 12))
